@@ -17,7 +17,7 @@ MAX_REPORT = 5
 KEEP_PREFIX = 1
 
 OPS = {'EI': [0xfb], 'DI': [0xf3], 'RETI': [0xd9], 'NOP': [0x00], 'INCA': [0x3c], 'LDIF': [0xe0, 0x0f], 'LDIE': [0xe0, 0xff],
-       'HALT': [0x76]}
+       'HALT': [0x76], 'RET': [0xc9]}
 
 
 def boundary_case(ie, iff, ime, nxt):
@@ -43,11 +43,11 @@ def seq_case(seq, a, req_at, mask, ime, ie, iff):
             pc += 1
     for i in range(6):
         lines.append('w %d 0' % (pc + i))
-    # every RETI returns to the instruction that follows it: return addresses on the stack in order
+    # every RETI / RET returns to the instruction that follows it: return addresses on the stack in order
     sp = 0xd000
     k = 0
     for i, name in enumerate(seq):
-        if name == 'RETI':
+        if name in ('RETI', 'RET'):
             ret = addr[i] + 1
             lines.append('w %d %d' % (sp + 2 * k, ret & 255))
             lines.append('w %d %d' % (sp + 2 * k + 1, ret >> 8))
